@@ -2,7 +2,11 @@
 
 Specification: spec/Visitor.tla (reference walk, stack machine, parallel views, visitor forms,
 TreeOf with static typing, type tracker); generator and families: spec/MC_C14.tla; binding:
-harness/cmd/gqlv/c14.go."""
+harness/cmd/gqlv/c14.go.
+
+The editing half of the contract (a callback answers ActionUpdate): specification spec/VisitorEdit.tla
+(reference semantics, small-step machine shaped like the library's loop, recorded deviations), generator
+spec/MC_C14E.tla, binding harness/cmd/gqlv/c14e.go (stages *_C14E_* / Spec_VisitorEdit_* below)."""
 import os
 
 from props import tlc_replay, tlc_check, VERIF
@@ -39,6 +43,32 @@ def machine(name, ngen, maxdec, mdocs, timeout=900):
                      workers=8, timeout=timeout, java_opts="-Xss64m -XX:ParallelGCThreads=4")
 
 
+def edit_consts(fams="FamsQuick", ngen=1, maxdec=0, mtrees="{}"):
+    return {"Fams": "<- " + fams, "NGen": ngen, "MaxDec": maxdec, "MTrees": mtrees}
+
+
+def edit_family(name, fams, timeout=1800):
+    """MC_C14E: (tree, lazily enumerated edit policy) cases replayed into the real visitor.Visit (handler C14E)."""
+    st = tlc_replay("MC_C14E_" + name, "MC_C14E", "C14E",
+                    dict(spec="SpecGenE", constants=edit_consts(fams), invariants=["Emit"]),
+                    workers=8, timeout=timeout, replay_args=["--known", KNOWN],
+                    java_opts="-Xss64m -XX:ParallelGCThreads=4")
+    if GQLV:
+        st["gqlv"] = GQLV
+    # C14 quantifies over policies of continue / skip / break; the editing half of the visitor contract is coverage
+    # of the system beyond the property's statement: bound to the code on every run, reported, never a verdict
+    st["beyond"] = True
+    return st
+
+
+def edit_machine(name, ngen, maxdec, mtrees, timeout=1800):
+    """VisitorEdit.tla: the small-step machine (frames, edits lists, index offsets) refines the reference walk."""
+    return tlc_check("Spec_VisitorEdit_" + name, "MC_C14E",
+                     dict(spec="SpecEMachine", constants=edit_consts(ngen=ngen, maxdec=maxdec, mtrees=mtrees),
+                          invariants=["ERefines"]),
+                     workers=8, timeout=timeout, java_opts="-Xss64m -XX:ParallelGCThreads=4")
+
+
 # generator alphabets (MC_C14.tla): V0 small trees; V1 aliases, arguments of every value shape, nested
 # selection sets, a variable-driven directive; V2 named / inline fragments, abstract types, __typename
 V0 = dict(leafs="V0_Leafs", comps="V0_Comps", inlines="V0_Inlines")
@@ -57,6 +87,14 @@ def stages(tier, seed):
             # fixed + type-system documents (K = 1..3, ALL policies on { a }), forms, parallel sets, sub-roots;
             # ~40 generated documents x every single decision
             family("quick", "FamsQuick", maxsel=2, maxnodes=2, maxdepth=2, **dict(V1, dirs="DirsNone")),
+            # EDITS (measured, load 15-20: machine_q 25 200 states / 16-24 s; quick 329 states = 5170 cases = 6361
+            # executions of the real visitor / 21-34 s).
+            # all trees of <= 4 nodes x all answers (continue / skip / break / delete / update) with <= 2 decisions
+            edit_machine("machine_q", 4, 2, "{1, 7}"),
+            # 9 trees x every single edit decision (policy + printer mode), pairs on { a b c }, on a bare selection set
+            # and on a bare field with alias and arguments, triples on { a }; result, events, what each callback is
+            # handed and the state of the original compared with the real visitor
+            edit_family("quick", "FamsQuick"),
         ]
     return [
         machine("machine_t", 5, 10, "{4, 5}"),
@@ -70,6 +108,12 @@ def stages(tier, seed):
         family("v2_k1", "FamsGenK1", maxsel=2, maxnodes=4, maxdepth=2, **V2),
         # every pair of decisions on every tree of the family
         family("v1_k2", "FamsGenK2", maxsel=1, maxnodes=2, maxdepth=2, **V1),
+        # EDITS (measured at load 14-18 / at load 30-45: machine_t 1 034 261 states 50-70 s / 151 s, machine_t6 375 910
+        # states 30 s / 114 s, thorough 2794 states = 56 225 cases = 83 122 executions of the real visitor 70 s / 214 s)
+        edit_machine("machine_t", 5, 3, "{1, 2, 7}"),
+        edit_machine("machine_t6", 6, 1, "{3, 4}"),
+        # every pair of edit decisions on all 9 trees (policy + printer mode), every triple on 4 small trees
+        edit_family("thorough", "FamsThorough"),
     ]
 
 
@@ -92,7 +136,22 @@ PROPS = {"C14": dict(
          "by-position typing, machine run = walk) are checked on the generated cases; "
          "(3) every case is replayed into the real visitor.Visit: plain, under VisitInParallel, under "
          "VisitWithTypeInfo, and under VisitWithTypeInfo(VisitInParallel). Non-trivial = (document, policy) with >= 1 "
-         "non-continue decision or >= 2 visitors (distinct ones counted by the harness)",
+         "non-continue decision or >= 2 visitors (distinct ones counted by the harness); "
+         "(4) EDITS (VisitorEdit.tla): TLC checks that the small-step machine shaped like the library's loop (frames with "
+         "index, keys, edits list, in-array flag; edits applied when a frame is left, array deletions by index minus the "
+         "number removed) refines the recursive reference semantics (ERefines) on all trees of <= NGen nodes with the "
+         "answers continue / skip / break / delete / update(copy) / update(trimmed copy) chosen lazily at each delivered "
+         "event; MC_C14E enumerates, over 9 trees (documents with definition, selection, argument, variable-definition, "
+         "list-value and directive lists, single children, values in interface-typed slots, nesting; a selection set and a "
+         "field traversed on their own), every edit policy of <= K decisions placed lazily at delivered events including "
+         "the events inside replacements (all singles on all trees, all pairs, triples on small trees), in policy mode and "
+         "in printer mode (every other leave replaces the node by a text, as the library's printer does); per case TLC "
+         "checks machine = reference (events, node handed to each callback, result), 'result = original with exactly the "
+         "delivered edits substituted' (ExactlyTheEdits), original untouched, and - without edits - agreement with "
+         "Visitor.tla's Walk; every case is replayed into the real visitor.Visit on an AST built for the tree (three "
+         "visitor forms): event sequence, key, enclosing nodes, the children of the node handed to every callback, the "
+         "returned tree / text and the state of the ORIGINAL tree must equal the specification's, or its prediction "
+         "under a listed deviation",
     assumptions=[
         "the child order of every node kind is transcribed in Visitor.tla!TreeOf / MC_C14.tla from the GraphQL AST definition "
         "(source order of the children), not from the library's key table; the harness follows paths through an unordered "
@@ -104,8 +163,15 @@ PROPS = {"C14": dict(
         "the input type reported AT a list literal (list type or element type) is left open; descriptions of type-system "
         "definitions are not modelled (the documents carry none)",
         "type tracking is checked against schema S1 only; exhaustive only within the stated bounds",
-        "edits (ActionUpdate) are out of scope of C14 except that a traversal requesting none leaves the AST deep-equal to "
-        "a freshly parsed copy",
+        "edits (ActionUpdate, VisitorEdit.tla): semantics of the graphql-js reference visitor the library's documentation "
+        "points to (replacement on enter is traversed, removal on enter is not; on leave the callback sees its children's "
+        "edits applied; a leave replacement discards edits made below). NOT asserted (edition-dependent / left open): what "
+        "Visit returns when no edit was requested (this library: nil; graphql-js: the root) and after a break; whether a copy "
+        "is an AST struct or the generic map the library falls back to (only its content is compared); replacement by a "
+        "non-node on enter, by a node the slot cannot hold, and edits requested by several parallel visitors / under "
+        "VisitWithTypeInfo are not exercised",
+        "replacement values are copies (fresh ids, new labels; whole or with every list cut to its first element) of the "
+        "node the callback is handed; node identity is carried in Loc.Start, which survives the library's conversion to maps",
     ])}
 
 MANIFEST_TEXT = {"C14": dict(
@@ -117,9 +183,18 @@ MANIFEST_TEXT = {"C14": dict(
          "delivered events) x visitor forms x sets of parallel visitors and prescribes the callback sequence; every case is "
          "replayed into the real visitor.Visit / VisitInParallel / VisitWithTypeInfo on the AST produced by the real parser; "
          "sequence, key, path, ancestors, parent, selected function and TypeInfo getters at every callback must equal the "
-         "specification's and the AST must be unchanged.",
+         "specification's and the AST must be unchanged. Edits: VisitorEdit.tla gives the reference semantics of callbacks "
+         "answering update / delete (result tree, events, original untouched), a small-step machine shaped like the "
+         "library's loop proved by TLC to refine it, and the declarative theorem 'the result is the original with exactly "
+         "the delivered edits substituted'; TLC-enumerated (tree, edit policy) cases in policy and printer mode are replayed "
+         "into the real Visit on ASTs built for the trees and the returned tree, the events, what each callback is handed "
+         "and the state of the original are compared.",
     note="Trusted: TLC, the transcription of the AST child order and of the reference TypeInfo algorithm in Visitor.tla, the "
          "harness path-following / projection code. Bounded: document families, K, NGen, schema S1. Two recorded defects are "
-         "modelled as named deviations (root skip panics; VisitWithTypeInfo does not leave a skipped node).",
+         "modelled as named deviations (root skip panics; VisitWithTypeInfo does not leave a skipped node). Edits: four "
+         "recorded defects are modelled as named deviations of VisitorEdit.tla (edits applied in place to the original; a "
+         "replacement for a child in an interface-typed field dropped; edits after the copy became a map dropped; removing "
+         "the root on enter panics); every subset of them is computed by TLC per case, an observation is credited only to a "
+         "set of listed deviations whose predicted outcome it equals as a whole.",
     technique="TLA+ reference walk + refinement-checked stack machine; TLC bounded-exhaustive (document, lazy policy) generation "
               "replayed into the real visitor")}
